@@ -167,3 +167,54 @@ Theorem C11_surfaces_partition_any_subset :
            Some (Buffer.byte_slice o (Buffer.map_range (Buffer.m2o s) (PipelineFull.sbytes n)))).
 Proof. exact SubsetPartition.surfaces_partition_any_subset. Qed.
 Print Assumptions C11_surfaces_partition_any_subset.
+
+(* ====================================================================================================================
+   The Python entry point: Dictionary.create(mode, fields=F, projection=P).  The binding hands `F | required_subset(P)` to
+   PyTokenizer::new -> StatefulTokenizer::set_subset; P is the `projection=` argument when one is passed, else the
+   projection of the configuration.  Model of the binding: builder G's Model/PyProjection.v (tables regenerated into
+   Generated/PyFacts.v); G's theorem for C19 rests on C11_accessor_preserved_normalize and is restated here for C11. *)
+From SudachiVerif Require Import Model.PyProjection Proofs.PyProjectionProofs Proofs.SubsetProjection.
+From SudachiVerif Require Generated.PyFacts.
+
+(* the regenerated tables of the binding are the ones the proofs were written for -- among them: create() ORs the required
+   subset of the projection in force into the requested fields on both paths (`projection=` passed: that projection's;
+   not passed: the configuration's), the required subset of every projection, the accessors every projection reads *)
+Fact C11_py_facts : py_facts_ok.
+Proof. unfold py_facts_ok. repeat split; vm_compute; reflexivity. Qed.
+Fact C11_fact_create_ors_required_subset : Generated.PyFacts.create_ors_required_subset = true.
+Proof. vm_compute. reflexivity. Qed.
+
+(* the subset create() requests contains F and required(P) *)
+Theorem C11_create_subset_contains : forall F k b,
+  N.testbit F b = true \/ N.testbit (required_subset k) b = true -> N.testbit (create_subset F (Some k)) b = true.
+Proof. exact create_subset_contains. Qed.
+Print Assumptions C11_create_subset_contains.
+
+(* every field of F reads as after a full load, for every projection P passed along *)
+Theorem C11_create_serves_requested_fields :
+  forall lx has_syn wid F k a iA, lex_ok lx -> F < 1024 -> N.testbit F (acc_flag a) = true ->
+  get_word_info lx has_syn wid ALL = Some iA ->
+  exists iS, get_word_info lx has_syn wid (loaded_subset F (Some k)) = Some iS /\ accessor a iS = accessor a iA.
+Proof. exact (create_serves_requested_fields C11_reader_order C11_normalize_closure C11_py_facts). Qed.
+Print Assumptions C11_create_serves_requested_fields.
+
+(* for EVERY one of the 1024 field sets F and every projection P: the projected surface (Morpheme.surface()) computed from
+   the word info loaded for (F, P) is the one computed from the fully loaded word info ... *)
+Theorem C11_projection_served_for_every_field_set :
+  forall lx has_syn wid F k pl surf iA,
+  lex_ok lx -> F < 1024 -> get_word_info lx has_syn wid ALL = Some iA ->
+  (forall iS, get_word_info lx has_syn wid (loaded_subset F (Some k)) = Some iS ->
+              project pl k (view_of surf iS) = project pl k (view_of surf iA)) /\
+  (k <> PSurface -> exists iS, get_word_info lx has_syn wid (loaded_subset F (Some k)) = Some iS).
+Proof. exact (projection_served_for_every_field_set C11_py_facts C11_reader_order C11_normalize_closure). Qed.
+Print Assumptions C11_projection_served_for_every_field_set.
+
+(* ... hence the one a tokenizer created with fields=None and the same projection computes *)
+Theorem C11_projection_same_as_all_fields :
+  forall lx has_syn wid F k pl surf iA iS iN, lex_ok lx -> F < 1024 ->
+  get_word_info lx has_syn wid ALL = Some iA ->
+  get_word_info lx has_syn wid (loaded_subset F (Some k)) = Some iS ->
+  get_word_info lx has_syn wid (loaded_subset ALL (Some k)) = Some iN ->
+  project pl k (view_of surf iS) = project pl k (view_of surf iN).
+Proof. exact (projection_same_as_all_fields C11_py_facts C11_reader_order C11_normalize_closure). Qed.
+Print Assumptions C11_projection_same_as_all_fields.
